@@ -17,9 +17,27 @@ package ast
 //@ fields_copied (*VarsWithValidation).DeepCopy   [C08]
 //@ fields_copied (*Include).DeepCopy              [C08]
 //@ fields_copied (*Vars).DeepCopy                 [C08,C09,C10,C11]
+
 //@   skipfield mutex a copy gets its own, unlocked mutex
 //@ fields_copied (*Matrix).DeepCopy               [C08]
 //@ fields_copied *                                [C08,C05]   -- any other DeepCopy method of this package, present or future
+
+// ---- decoders: what the YAML document says is what the object holds -----------------------------------------
+// The mapping form of a task, a Taskfile, a dependency, an include, ... is decoded into a local struct and taken
+// over field by field. Each field is taken over UNCHANGED (one obligation per field that the local struct and the
+// receiver have in common, generated from go/types): no default is filled in at decode time, nothing is normalised,
+// nothing is dropped. (Defaults belong to the places that USE an attribute: an absent attribute must stay
+// distinguishable from one that was written, for merges - method, run, output - and for the error messages.)
+//@ fields_decoded (*Task).UnmarshalYAML task                      [C03,C05,C06,C08,C13,C14]
+//@   skipfield Cmds a task has either cmds or the single cmd: the list is built from whichever was given
+//@ fields_decoded (*Taskfile).UnmarshalYAML taskfile              [C05,C06,C08,C10,C17]
+//@   skipfield Includes an absent section becomes an empty one
+//@   skipfield Vars an absent section becomes an empty one
+//@   skipfield Env an absent section becomes an empty one
+//@   skipfield Tasks an absent section becomes an empty one
+//@ fields_decoded (*Dep).UnmarshalYAML taskCall                   [C01,C08,C10]
+//@ fields_decoded (*Include).UnmarshalYAML includedTaskfile       [C08,C10]
+
 
 // every task that comes out of the decoder carries its location (Tasks.UnmarshalYAML sets it for each entry, DeepCopy
 // and the compiler copy it): consumers dereference it without a test
